@@ -124,6 +124,15 @@ def programs(thorough):
     for sp in (("punique", 3, "ident", "last"), ("punique", 3, "ident", "first"), ("punique", 3, "parity", "last"),
                ("partition", 3, None), ("sw", 3, False), ("unique", 2, "ident", True), ("unique", 2, "ident", False)):
         progs.append(("deep", prog_chain((sp,)), ("s",)))
+    # falsy elements (0, and what nodes derive from it: (0, ..), 0-sums): every single node, and every node behind
+    # a pair-maker, on the alphabet {0, 2, 1} (0 and 2 share a parity key, so "first of its key" is a falsy element)
+    for spec, it, ot in UNARY:
+        if "i" in it:
+            progs.append(("falsy", prog_chain((spec,)), ("s",)))
+        if "p" in it:
+            progs.append(("falsy", prog_chain((("map", "pair"), spec)), ("s",)))
+    for j in JOINS[:3]:
+        progs.append(("falsy", (("src", "a"), ("src", "b"), ("node", "x", j, ("a", "b"))), ("a", "b")))
     # twins: two independent copies of the same node fed from separate sources must not influence
     # each other (state hoisted to class or module scope shows up here and nowhere else)
     for spec, it, ot in UNARY:
@@ -231,7 +240,8 @@ def run_space(ctx, pid, mode, depth, values, thorough, engine_note, clauses_doc)
         progs = [p for p in progs if ctx.only in repr(p)]
     items = [(shape, prog, entries, mode,
               (depth if len(entries) < 3 else min(depth, 3)) + (2 if shape == "deep" else 0) - (1 if shape == "twin" and len(entries) < 3 else 0),
-              (None, 1) if shape == "nonejoin" else (values if shape != "deep" else (1, 2, 3))) for shape, prog, entries in progs]
+              (None, 1) if shape == "nonejoin" else ((0, 2, 1) if shape == "falsy" else (values if shape != "deep" else (1, 2, 3))))
+             for shape, prog, entries in progs]
     rep = Report()
     tot = dict(states=0, transitions=0, runs=0, nontrivial=0)
     byshape = {}
